@@ -127,6 +127,34 @@ impl DecN {
     pub fn sci(&self) -> i64 {
         self.exp10 + self.nd as i64 - 1
     }
+    /// Compare two decimal values exactly.
+    pub fn cmp_dec(&self, o: &DecN) -> Ordering {
+        match (self.d.is_zero(), o.d.is_zero()) {
+            (true, true) => return Ordering::Equal,
+            (true, false) => return Ordering::Less,
+            (false, true) => return Ordering::Greater,
+            _ => {},
+        }
+        if self.sci() != o.sci() {
+            return self.sci().cmp(&o.sci());
+        }
+        let m = self.exp10.min(o.exp10);
+        let scale = |x: &DecN| -> Nat {
+            let k = (x.exp10 - m) as u32;
+            x.d.mul(&pow5(k)).shl(k as u64)
+        };
+        let ord = scale(self).cmp(&scale(o));
+        if ord != Ordering::Equal {
+            return ord;
+        }
+        // equal kept prefixes: a sticky tail is strictly larger than none; two sticky tails are not comparable here
+        match (self.sticky, o.sticky) {
+            (false, false) => Ordering::Equal,
+            (true, false) => Ordering::Greater,
+            (false, true) => Ordering::Less,
+            (true, true) => Ordering::Equal,
+        }
+    }
     /// Compare the decimal value with `k * 2^j`.
     pub fn cmp_bin(&self, k: u64, j: i32) -> Ordering {
         if k == 0 {
